@@ -30,16 +30,16 @@ def life(text, ref):
 
 
 CHECKS = {
-    "C01": dyn("TLC enumerates every valid shape within the bound x decorations x generic/corner points; the real library (NumPy step and SX/MX functions) executes each; TLC validates every recorded next density/speed/queue against the exact-rational METANET specification.", "5/C01"),
+    "C01": dyn("TLC enumerates every valid shape within the bound x decorations x generic/corner points; the real library (NumPy step and SX/MX functions) executes each; TLC validates every recorded next density/speed/queue against the exact-rational METANET specification. Representations (int/float/NumPy-scalar/0-d parameters, integer arrays, columns) and the history before the step (in-place refill + element-wise steps, a failed step, hand-stepped elements, reassigned attributes) vary per case.", "5/C01"),
     "C02": dyn("Network-wide and per-node vehicle balances evaluated by TLC on the implementation's own inputs and outputs (NumPy next states; x+, q, q_o of the compiled functions) for every enumerated case; exact conservation is also a theorem checked on the specification itself.", "5/C02"),
     "C03": dyn("Every enumerated case is evaluated through NumPy and through SX and MX functions at compactness 0/1/2; TLC compares each with the specification and the function outputs with the NumPy next states recorded for the same values.", "5/C03"),
     "C04": dyn("Names, sizes and free symbols of every compiled function (compactness -1..3, with/without flows, with declared parameters, SX and MX) are checked by TLC against Compile!LayoutIn/LayoutOut instantiated with the network's own element order; position-only generic arguments are decoded through the specification's layout and every result compared slot by slot.", "5/C04"),
-    "C05": dyn("With more_out=True at the three levels (also with symbolic T / capacities / critical densities), TLC checks the reported link and origin flows against the specification and the queue / flow / feed identities on the function's own outputs.", "5/C05"),
-    "C06": build("Every graph reachable through the construction API within the bound: is_valid(False)/(True) on the real network after every replayed transition against the nine conditions stated literally in NetBuild!Valid (verdict, raise-iff-invalid, messages).", "5/C06"),
+    "C05": dyn("NumPy: the flows every link and origin reports when asked after a step (np.flow) against the specification. Functions: with more_out=True at the three levels (also with symbolic T / capacities / critical densities), TLC checks the reported link and origin flows against the specification and the queue / flow / feed identities on the function's own outputs.", "5/C05"),
+    "C06": build("Every graph reachable through the construction API within the bound: is_valid(False)/(True) on the real network after every replayed transition against the nine conditions stated literally in NetBuild!Valid (verdict, raise-iff-invalid, messages); the returned message list is consumed and the question asked again.", "5/C06"),
     "C07": dyn("For every valid shape in the bound: is_valid accepts, NumPy steps (own variables 'rand'/'empty' and user arrays), SX and MX step and compile at compactness -1..3, shapes match, outputs finite on the defined admissible domain including exact zeros.", "5/C07"),
-    "C08": build("All interleavings of mutating calls and reads up to the depth bound: after every replayed transition every lookup and per-node view of the real network equals recomputation from the live graph and the specification's value; the model's own invariant CacheCoherent is checked for the invalidation table.", "5/C08"),
-    "C09": build("All call sequences up to the bound and all path shapes up to length 4 (quick) / 6 (thorough): graph after each call equals NetBuild's post-state and the declaratively Described graph; malformed paths raise; no non-node object becomes a node.", "5/C09"),
-    "C10": dyn("Structural Jacobian sparsity of the SX and MX functions and bit-exact NumPy perturbation results are checked by TLC against the declarative dependency sets Metanet!Deps.", "5/C10"),
+    "C08": build("All interleavings of mutating calls and reads up to the depth bound: after every replayed transition every lookup and per-node view of the real network equals recomputation from the live graph and the specification's value; the model's own invariant CacheCoherent is checked for the invalidation table. A history-complete profile (no two histories merged) and objects shared between networks cover state hidden outside the model.", "5/C08"),
+    "C09": build("All call sequences up to the bound and all path shapes up to length 4 (quick) / 6 (thorough): graph after each call equals NetBuild's post-state and the declaratively Described graph; malformed paths raise; no non-node object becomes a node; bulk arguments are spelled as list / tuple / generator / zip.", "5/C09"),
+    "C10": dyn("Structural Jacobian sparsity of the SX and MX functions and bit-exact NumPy perturbation results are checked by TLC against the declarative dependency sets Metanet!Deps, also on networks reached by a construction detour with use in between.", "5/C10"),
     "C11": dyn("Family 'opts': the 64 option combinations over negative and positive inputs on NumPy, SX, MX; TLC compares with StepOpt = clamp o Step o clamp and checks bit-exactly the metamorphic relation against the plain step on hand-clamped inputs.", "5/C11"),
     "C12": life("Histories of steps/compilations/initialisations with caller-owned arrays and symbols: after every call every caller-owned object, the supplied dictionary and all element parameters are compared with pristine copies; every NumPy step from caller values is compared bit for bit with a fresh network. In addition, on every enumerated topology of the dynamics engine: caller arrays unchanged after one and two steps, and bit-identical next states when stepping again from the same dictionary and from fresh copies (clauses np.heap, np.repeat of Trace_Dyn).", "5/C12"),
     "C13": life("All sequences of use(name|instance|bad name) and steps/initialisations with and without explicit engines for all (selected, explicit) pairs: the selected engine is a spy that must stay silent when an explicit engine is passed; kinds of all variables match; selection only changes through use(). In addition, on every enumerated topology of the dynamics engine a recording engine is selected while another engine is passed explicitly (three kind pairs): the recording engine must compute nothing, all variables and next states have the explicit kind, the selection survives (clauses spy.* of Trace_Dyn).", "5/C13"),
@@ -50,7 +50,7 @@ CHECKS = {
     "C16": dyn("Functions compiled with symbolic parameter subsets (singletons, pairs, full set; per-element and shared symbols; SX and MX; levels 0 and 2) are evaluated at two parameter points; TLC substitutes the values into the specification's network and compares; trailing positions / stacked p per Compile!ParamEntries.", "5/C16"),
     "C17": dyn("TLC checks the origin-flow bounds and next-queue non-negativity on the q_o / w+ outputs of compiled functions and on the NumPy next queues for every admissible enumerated case, on both engines' origin primitives over full grids, and as exact theorems on the specification.", "5/C17"),
     "C18": dyn("Family 'neutral': each case runs against its uncontrolled twin generated by the specification (plain links; swapped ramp variant; unbounded desired flow; infinite limits): equal next states when controls are neutral, next speeds never higher and everything else equal under finite limits; the same relation is an exact theorem on the specification.", "5/C18"),
-    "C19": life("All interleavings of whole-network steps, per-element init/step, init-all, late replacements and compilations up to the depth bound: RuntimeError iff the specification's Ready fails (uninitialised, unstepped or stale next states); returned functions have no free symbols and their values equal StepOpt with the parameters of the most recent step.", "5/C19"),
+    "C19": life("All interleavings of whole-network steps, per-element init/step, init-all, late replacements and compilations up to the depth bound: RuntimeError iff the specification's Ready fails (uninitialised, unstepped or stale next states); returned functions have no free symbols and their values equal StepOpt with the parameters of the most recent step. Replayed with distinct names, shared names and recycled object addresses; a history-complete profile covers state hidden inside engines and elements.", "5/C19"),
 }
 ENGINES = [
     {"name": "dyn", "path": "tla/Real.tla tla/Real.java tla/Laws.tla tla/Metanet.tla tla/Compile.tla tla/DynCases.tla tla/Trace_Dyn.tla harness/dyncheck.py harness/dynrun.py",
@@ -67,4 +67,4 @@ NOT_APPLICABLE = {}
 NOTES = ("See DESIGN.md. All checks: /venv/bin/python harness/check.py <id> --tier quick|thorough; exit 2 = machinery failure. "
          "TLC outputs that depend only on the specification and the seed are cached under .cache/ (pre-generated by build.sh); "
          "everything touching /repo is re-run on every invocation. harness/selftest.py validates the machinery against a catalogue "
-         "of source mutations (harness/mutants.py) on scratch copies.")
+         "of source mutations (harness/mutants.py) on scratch copies; harness/seedsweep.py re-runs the 61 independently seeded changes of seeded/.")
